@@ -13,44 +13,44 @@ Section Refinement.
   Notation f3 := (fun _ : option exn => fin_plan).
 
   Theorem contingency_refines :
-    forall be bl bf ba p s fuel,
-      let o := mkOpts be bl bf ba false in
-      ltrace (pg_lresume hres (40 + fuel)) (pg_init (contingency_prog o) [HLive p; HFun f1; HFun f2; HFun f3]) s
-      = ltrace (cw_lresume hres true o 1 2 3 exc_plan else_plan fin_plan) (PhStart p) s.
+    forall be bl bf ba bp p s fuel,
+      let o := mkOpts be bl bf ba bp in
+      ltrace (pg_lresume hres (60 + fuel)) (pg_init (contingency_prog o) [HLive p; HFun f1; HFun f2; HFun f3]) s
+      = ltrace (cw_lresume hres true o false 1 2 3 exc_plan else_plan fin_plan) (PhStart p) s.
   Proof.
-    intros be bl bf ba p s fuel o.
+    intros be bl bf ba bp p s fuel o.
     apply (bisim_ltrace _ _ (Rr exc_plan else_plan fin_plan o)).
     - intros a b H i. apply cw_sim. exact H.
     - constructor.
   Qed.
 
   Theorem python_try_refines :
-    forall be bl bf ba p s fuel,
-      let o := mkOpts be bl bf ba false in
-      ltrace (pg_lresume hres (40 + fuel)) (pg_init (python_try_prog o) [HLive p; HFun f1; HFun f2; HFun f3]) s
-      = ltrace (cw_lresume hres false o 1 2 3 exc_plan else_plan fin_plan) (PhStart p) s.
+    forall be bl bf ba bp p s fuel,
+      let o := mkOpts be bl bf ba bp in
+      ltrace (pg_lresume hres (60 + fuel)) (pg_init (python_try_prog o) [HLive p; HFun f1; HFun f2; HFun f3]) s
+      = ltrace (cw_lresume hres false o false 1 2 3 exc_plan else_plan fin_plan) (PhStart p) s.
   Proof.
-    intros be bl bf ba p s fuel o.
+    intros be bl bf ba bp p s fuel o.
     apply (bisim_ltrace _ _ (RPr exc_plan else_plan fin_plan o)).
     - intros a b H i. apply py_sim. exact H.
     - constructor.
   Qed.
 
   Theorem finalize_wrapper_refines :
-    forall callable p s fuel,
-      ltrace (pg_lresume hres (40 + fuel)) (pg_init (finalize_wrapper_prog false) [HLive p; fin_hole fin_plan callable]) s
-      = ltrace (cw_lresume hres true finalize_opts 1 2 1 (fun _ => fin_plan) fin_plan fin_plan) (PhStart p) s.
+    forall pfd callable p s fuel,
+      ltrace (pg_lresume hres (60 + fuel)) (pg_init (finalize_wrapper_prog pfd) [HLive p; fin_hole fin_plan callable]) s
+      = ltrace (cw_lresume hres true (finalize_opts pfd) true 1 2 1 (fun _ => fin_plan) fin_plan fin_plan) (PhStart p) s.
   Proof.
-    intros callable p s fuel.
-    apply (bisim_ltrace _ _ (RFr fin_plan (finalize_wrapper_prog false) (fw_handlers) callable)).
+    intros pfd callable p s fuel.
+    apply (bisim_ltrace _ _ (RFr fin_plan (finalize_wrapper_prog pfd) (fw_handlers pfd) callable)).
     - intros a b H i. apply fw_sim. exact H.
     - constructor.
   Qed.
 
   Theorem finalize_decorator_refines :
     forall p s fuel,
-      ltrace (pg_lresume hres (40 + fuel)) (pg_init (finalize_decorator_prog true) [HLive p; HFun f3]) s
-      = ltrace (cw_lresume hres true finalize_opts 1 2 1 (fun _ => fin_plan) fin_plan fin_plan) (PhStart p) s.
+      ltrace (pg_lresume hres (60 + fuel)) (pg_init (finalize_decorator_prog true) [HLive p; HFun f3]) s
+      = ltrace (cw_lresume hres true (finalize_opts false) true 1 2 1 (fun _ => fin_plan) fin_plan fin_plan) (PhStart p) s.
   Proof.
     intros p s fuel.
     apply (bisim_ltrace _ _ (RFr fin_plan (finalize_decorator_prog true) fd_handlers true)).
@@ -77,6 +77,7 @@ Section SpecProps.
   Context {P : Type}.
   Variable hres : P -> input -> outcome P.
   Variable o : cw_opts.
+  Variable base_handler : bool.
   Variable exc_id else_id fin_id : nat.
   Variable exc_plan : exn -> P.
   Variable else_plan fin_plan : P.
@@ -84,7 +85,7 @@ Section SpecProps.
   Hypothesis He : o_exc o = true -> Nat.eqb fin_id exc_id = false.
   Hypothesis Hl : o_else o = true -> Nat.eqb fin_id else_id = false.
 
-  Notation spec := (cw_lresume hres true o exc_id else_id fin_id exc_plan else_plan fin_plan).
+  Notation spec := (cw_lresume hres true o base_handler exc_id else_id fin_id exc_plan else_plan fin_plan).
   Notation cnt l := (length (filter (is_enter fin_id) l)).
 
   Definition started (ph : @phase P) : bool := match ph with PhStart _ => false | _ => true end.
@@ -149,17 +150,25 @@ Section SpecProps.
     - split; cbn; auto; lia.
   Qed.
 
+  Lemma ok_handle :
+    forall e log, ok (handle hres o exc_id fin_id exc_plan fin_plan e log) (cnt log + N).
+  Proof.
+    intros e log. unfold handle.
+    destruct (is_Exception e); [|apply ok_enter_final].
+    destruct (o_exc o) eqn:E; [|apply ok_enter_final].
+    replace (cnt log) with (cnt (log ++ [Enter exc_id; Call exc_id (Send VNone)])).
+    + apply ok_except_result.
+    + rewrite cnt_app. cbn. rewrite (He eq_refl). cbn. lia.
+  Qed.
+
   Lemma ok_after_raise :
-    forall e log, ok (after_raise hres true o exc_id fin_id exc_plan fin_plan e log) (cnt log + N).
+    forall e log, ok (after_raise hres true o base_handler exc_id fin_id exc_plan fin_plan e log) (cnt log + N).
   Proof.
     intros e log. unfold after_raise. cbn [andb].
     destruct (is_GeneratorExit e) eqn:G.
     - split; cbn; [lia|]. intros; congruence.
-    - destruct (is_Exception e); [|apply ok_enter_final].
-      destruct (o_exc o) eqn:E; [|apply ok_enter_final].
-      replace (cnt log) with (cnt (log ++ [Enter exc_id; Call exc_id (Send VNone)])).
-      + apply ok_except_result.
-      + rewrite cnt_app. cbn. rewrite (He eq_refl). cbn. lia.
+    - destruct ((is_Exception e || base_handler && negb false) && o_pfd o); [|apply ok_handle].
+      split; cbn; rewrite (need_mid (PhPause e) I); auto; lia.
   Qed.
 
   Lemma ok_after_return :
@@ -174,7 +183,7 @@ Section SpecProps.
 
   Lemma ok_body_result :
     forall r log,
-      ok (body_result hres true o exc_id else_id fin_id exc_plan else_plan fin_plan r log) (cnt log + N).
+      ok (body_result hres true o base_handler exc_id else_id fin_id exc_plan else_plan fin_plan r log) (cnt log + N).
   Proof.
     intros [m q|v|e'|] log; unfold body_result.
     - split; cbn; rewrite (need_mid (PhBody q) I); auto; lia.
@@ -196,7 +205,7 @@ Section SpecProps.
   (* one step from a started phase *)
   Lemma step_ok : forall ph i, started ph = true -> ok (spec ph i) (need ph).
   Proof.
-    intros ph i S. destruct ph as [p|p|q e0|q v0|q c]; [discriminate| | | |]; unfold cw_lresume.
+    intros ph i S. destruct ph as [p|p|e1|q e0|q v0|q c]; [discriminate| | | | |]; unfold cw_lresume.
     - rewrite (need_mid (PhBody p) I).
       destruct i as [v|e|].
       + apply (ok_body_result _ [Call 0 (Send v)]).
@@ -204,6 +213,11 @@ Section SpecProps.
         * apply ok_close_delegate. intros e' log Hc. rewrite <- (Nat.add_0_l N), <- Hc. apply ok_after_raise.
         * apply (ok_body_result _ [Call 0 (Throw e)]).
       + apply ok_close_delegate. intros e' log Hc. rewrite <- (Nat.add_0_l N), <- Hc. apply ok_after_raise.
+    - rewrite (need_mid (PhPause e1) I).
+      destruct i as [v|e|].
+      + apply (ok_handle e1 []).
+      + apply (ok_enter_final _ []).
+      + apply (ok_enter_final _ []).
     - rewrite (need_mid (PhExcept q e0) I).
       destruct i as [v|e|].
       + apply (ok_except_result _ _ [Call exc_id (Send v)]).
@@ -256,17 +270,17 @@ Section SpecProps.
   Proof.
     intros s ph. destruct (started ph) eqn:S.
     - pose proof (final_at_most_started s ph S). pose proof (need_le_1 ph). lia.
-    - destruct ph as [p| | | |]; try discriminate.
+    - destruct ph as [p| | | | |]; try discriminate.
       destruct s as [|i s]; [cbn; lia|].
       destruct i as [[|z]|e|]; try (cbn; lia). cbn [ltrace].
       change (spec (PhStart p) (Send VNone))
-        with (body_result hres true o exc_id else_id fin_id exc_plan else_plan fin_plan (hres p (Send VNone))
+        with (body_result hres true o base_handler exc_id else_id fin_id exc_plan else_plan fin_plan (hres p (Send VNone))
                           [Enter 0; Call 0 (Send VNone)]).
       pose proof (ok_body_result (hres p (Send VNone)) [Enter 0; Call 0 (Send VNone)]) as [Hc Hx].
       unfold cost in Hc. unfold exact in Hx.
       assert (C0 : cnt [Enter 0; Call 0 (Send VNone)] = 0) by (cbn; now rewrite H0).
       rewrite C0 in *.
-      set (r := body_result hres true o exc_id else_id fin_id exc_plan else_plan fin_plan (hres p (Send VNone)) _) in *.
+      set (r := body_result hres true o base_handler exc_id else_id fin_id exc_plan else_plan fin_plan (hres p (Send VNone)) _) in *.
       assert (HN : N <= 1) by (unfold N; destruct (o_fin o); lia).
       destruct (fst r) as [m ph'|w|e'|]; rewrite count_cons; cbn [snd]; try (unfold count_enter; cbn; lia).
       destruct Hx as [S' _]. pose proof (final_at_most_started s ph' S'). lia.
